@@ -187,6 +187,7 @@ template <template <class...> class GT, class L> void roundtrip(Reporter &R, uin
         auto pr = loadIndexed<GT, L>(path);
         unlink(path.c_str());
         ++C.roundTrips;
+        R.digest(content + snapshot(pr.first));
         err = compareLoaded<GT<L>, L>(pr.first, s, labels, &g);
         if (!err.empty()) R.violation(cls + "/text-round-trip/" + err.substr(0, err.find_first_of(":(")), err + "; graph " + s.str());
     } catch (std::exception &ex) {
